@@ -125,11 +125,9 @@ func runC13(c *core.Ctx) {
 					}
 				case toks[adj].Kind == ref.Text:
 					s.facesText = adj
-				case toks[adj].Kind == ref.Tag && (toks[adj].Name == "comment" || toks[adj].Name == "endcomment"):
-					// a whole comment block stands next to the hyphen: it renders nothing, and whether the marker then
-					// reaches the text on the other side of it is not stated
-					s.facesText = -4
 				default:
+					// another tag or object - a whole comment block included, which renders nothing but is not literal
+					// whitespace either: the text on its other side is not adjacent to the hyphen
 					s.facesText = -2
 				}
 				slots = append(slots, s)
@@ -266,9 +264,6 @@ func runC13(c *core.Ctx) {
 				}
 				// a hyphen that faces another tag or object has no literal text next to it: it strips nothing (facesText == -2
 				// contributes no deletion to the transformed template)
-				if s.facesText == -4 {
-					strong = false
-				}
 				if s.opaque == 2 && s.bodyTok >= 0 {
 					rawSlots = append(rawSlots, j)
 				}
